@@ -120,5 +120,12 @@ PairShapes == <<
   Shape("p.sorted", Desc(<<Leaf, Msg("Root", <<Fld("Zed", 1, "string"), InOneof(Fld("BranchA", 2, "string"), "Grp"),
         Fld("Alpha", 3, "int32"), InOneof(Fld("BranchB", 4, "int32"), "Grp")>>, <<"Grp">>)>>), [BaseCfg EXCEPT !.sort = TRUE]) >>
 
+\* an excluded field: the Go field exists, the schema does not describe it (C05: left untouched)
+ResetExtraShapes == <<
+  Shape("r.excluded", Desc(<<Leaf, Msg("Root", <<Fld("Str", 1, "string"), Fld("Extra", 2, "string"), MsgF("Sub", 3, "Leaf"), Rep(Fld("Items", 4, "int32"))>>, <<>>)>>),
+        [BaseCfg EXCEPT !.exclude = <<"Root.Extra", "Root.Items">>]) >>
+
 AllSessionShapes == ScalarShapes \o ListShapes \o MapShapes \o ObjShapes \o OneofShapes \o EmbedShapes \o EmptyShapes \o DeepShapes \o PairShapes
+\* refresh histories are quadratic / cubic in the number of values: one shape per kind of coupling
+RefreshShapes == ScalarShapes \o ListShapes \o MapShapes \o ObjShapes \o OneofShapes \o EmbedShapes \o EmptyShapes \o PairShapes
 =============================================================================
